@@ -2,3 +2,4 @@ import Proofs.Scan
 import Proofs.RunLoop
 import Proofs.Metadata
 import Proofs.Assign
+import Proofs.FileStore
